@@ -798,8 +798,15 @@ pub fn mutate_obj(rng: &mut Rng, g: &mut GenObj) {
                 // extra or missing field
                 let kw: &[u8] = *rng.pick(&[&b"v"[..], b"f", b"vt", b"vn"]);
                 if let Some(i) = pick_line(rng, &lines, kw) {
-                    if rng.chance(1, 2) {
+                    if rng.chance(1, 3) {
                         lines[i].extend_from_slice(b" 4");
+                    } else if rng.chance(1, 2) {
+                        // a polygon or an over-long record: many more fields than three
+                        let k = *rng.pick(&[1usize, 2, 5, 12, 13, 14, 15, 16, 17, 30, 31, 32, 33, 63, 64, 65, 100, 255, 256, 257, 300, 1000]);
+                        for j in 0..k {
+                            let t = if kw == b"f" { format!(" {}", 1 + j % 3) } else { format!(" {}.5", j % 7) };
+                            lines[i].extend_from_slice(t.as_bytes());
+                        }
                     } else {
                         let k = rng.usize(1, 3);
                         replace_token(&mut lines[i], k, b"");
